@@ -74,6 +74,10 @@ CLAIMED = {
    "Thin structural part, decided on every run: the SI and IEC prefix ladders (list, start exponent, step, factor base) give the documented exponent maps with the empty prefix at 0; each rounding-boundary literal is 10^d - 5*10^(d-5) (decimal, exact rational) or the correctly rounded double with the right binary offset (hexadecimal, evaluated in the checker), reaches the threshold field that selects precision 3-d, through an inclusive comparison, coarse to fine; the sub-prefix ladder; the common scale's minimum takes magnitudes and skips zeros (iteration table); Scaler.Format is the single call AppendFloat(val/Factor,'f',Prec,64); the no-op scaler; ClassOf's token table is exactly {B, MB, bytes} in numerator position.",
    "Does NOT decide the property's actual content: that division followed by %.*f rounds on the same side of every threshold for every float (a numerical statement about all float64 values). Trusted: go/types, go/ssa, strconv in the checker for the hex constants.",
    "constant/table conformance evaluated in the checker (math/big, strconv) + decision-table extraction"),
+ "C11": ("DESIGN.md §4 C11 (thin)",
+   "Thin structural part, decided on every run: guards (empty samples, single rank group, zero variance) precede every result; each switch over the alternative covers its three constants; for every (alternative x exact/approximate branch) path, enumerated by abstract interpretation, the U statistic and the p-value expression equal the documented closed forms as rational functions with CDF/sqrt uninterpreted (U1, the three exact tails with the centre case and the cap at 1, mu, sigma^2 with the tie term, continuity correction, the three normal tails) and lie in [0,1] by interval evaluation; the tie term is the sum of t^3-t; the exact method is chosen exactly when both sizes are within the applicable limit; ties are flagged for any multi-member rank group; the legacy wrappers pass errors and P through.",
+   "Does NOT decide exactness of the tied/untied U distributions (udist.go: recurrence, K=2 base case), symmetry of the two-sided value under swapping with ties, the half-step of the greater tail under ties, or floating-point cancellation (e.g. sigma being exactly 0 for all-equal input) — observed deviations O1 in DESIGN §5 are out of this family's reach. Trusted: go/types, go/ssa.",
+   "path enumeration by abstract interpretation + rational-function identity with uninterpreted functions + interval evaluation"),
 }
 
 NOT_YET = "check not built yet in this round (planned in DESIGN.md); not claimed until its rules run clean on the unchanged tree"
